@@ -1,6 +1,6 @@
 // C02: division returns the exact quotient/remainder with the documented rounding
 #include "../harness/gen.hpp"
-#include "gmp-mparam.h"
+#include "../harness/thresholds.hpp"
 using namespace eng; using namespace gen; using ref::Int;
 
 // ---- operand construction (backward: n = q*d + r) -----------------------------
